@@ -317,7 +317,75 @@ class SymCtx:
             return "unsat", None
         if r == z3.sat:
             return "sat", self._extract(s.model())
-        return "unknown", None
+        return self._solve_cvc5(s)
+
+    def _solve_cvc5(self, s):
+        """Second opinion when z3 answers unknown: the same query, as SMT-LIB2 text, through the cvc5 binary.
+        unsat is accepted as is; a model is only a candidate (every counterexample is replayed concretely)."""
+        import re
+        import shutil
+        import subprocess
+        import tempfile
+
+        exe = shutil.which("cvc5")
+        if exe is None:
+            return "unknown", None
+        text = s.to_smt2()
+        names = {nm: var.decl().name() for nm, var in self.inputs.items()}
+        text = text.replace("(check-sat)", "(check-sat)\n(get-model)")
+        try:
+            with tempfile.NamedTemporaryFile("w", suffix=".smt2", delete=False) as f:
+                f.write("(set-option :produce-models true)\n" + text)
+                path = f.name
+            budget = max(20.0, 3 * self.vc_timeout_ms / 1000.0)
+            out = subprocess.run([exe, f"--tlimit={int(budget * 1000)}", path], capture_output=True, text=True, timeout=budget + 10).stdout
+        except Exception:
+            return "unknown", None
+        finally:
+            try:
+                os.unlink(path)
+            except Exception:
+                pass
+        lines = out.strip().splitlines()
+        first = lines[0].strip() if lines else ""
+        self.result.cvc5_queries = getattr(self.result, "cvc5_queries", 0) + 1
+        if first == "unsat":
+            # (the only later output is the complaint of (get-model) that there is no model)
+            if any("(error" in l and "model" not in l.lower() for l in lines[1:]):
+                return "unknown", None
+            return "unsat", None
+        if first != "sat" or "(error" in out:
+            return "unknown", None
+        model = {}
+
+        def val(txt):
+            txt = txt.strip()
+            if txt in ("true", "false"):
+                return txt == "true"
+            m = re.fullmatch(r"\(- (.*)\)", txt)
+            if m:
+                v = val(m.group(1))
+                return None if v is None else -v
+            m = re.fullmatch(r"\(/ (\S+) (\S+)\)", txt)
+            if m:
+                from fractions import Fraction
+
+                return float(Fraction(int(float(m.group(1))), int(float(m.group(2)))))
+            try:
+                return int(txt)
+            except ValueError:
+                try:
+                    return float(txt)
+                except ValueError:
+                    return None
+
+        for nm, z3name in names.items():
+            m = re.search(r"\(define-fun \|?" + re.escape(z3name) + r"\|? \(\) \w+ (.*)\)\s*$", out, re.M)
+            v = val(m.group(1)) if m else None
+            if v is None:
+                return "unknown", None
+            model[nm] = v
+        return "sat", model
 
     def _model(self, asserts, extra):
         st, m = self._solve(list(asserts), extra)
